@@ -2377,8 +2377,9 @@ impl Monitor {
                             format!("lifecycle set has {lifecycle_len} entries ({lifecycle_distinct} distinct), model has {want_lc} enabled lifecycle sources"),
                         )
                         .with_sig(if *lifecycle_len > *lifecycle_distinct { "C14.set/duplicate" } else { "C14.set/stale-or-missing" }),
-                        // C09: a Disable / Remove post-action that leaves the lifecycle entry behind was applied only in part
-                        vec!["C14", "C15", "C09"],
+                        // C09: a Disable / Remove post-action that leaves the lifecycle entry behind was applied only in part;
+                        // C06: a removed source that is still on the list has not been released by the loop
+                        vec!["C14", "C15", "C09", "C06"],
                     ));
                 }
                 let want_heap = self.srcs.iter().filter(|m| matches!(m.kind, Kind::Timer { .. }) && m.armed_dl.is_some()).count()
